@@ -238,6 +238,7 @@ func (r *PipelineRunner) ScheduleAsync(pipeline string, opts ScheduleOpts) (*Pip
 
 	r.jobsByID[id] = job
 	r.jobsByPipeline[pipeline] = append(r.jobsByPipeline[pipeline], job)
+	r.verifAccess("ScheduleAsync", true)
 
 	if job.StartDelay > 0 {
 		// A delayed job is a job on the wait list that is started by a function after a delay
@@ -360,6 +361,7 @@ func (r *PipelineRunner) ReadJob(id uuid.UUID, process func(j *PipelineJob)) err
 	}
 
 	process(job)
+	r.verifAccess("ReadJob", false)
 
 	return nil
 }
@@ -394,6 +396,7 @@ func (r *PipelineRunner) startJob(job *PipelineJob) {
 	// Actually start job
 	now := time.Now()
 	job.Start = &now
+	r.verifAccess("startJob", true)
 
 	// Run graph asynchronously
 	r.wg.Add(1)
@@ -412,6 +415,7 @@ func (r *PipelineRunner) HandleTaskChange(t *task.Task) {
 	jobIDString := t.Variables.Get(taskctl.JobIDVariableName).(string)
 	jobID, _ := uuid.FromString(jobIDString)
 	j, found := r.jobsByID[jobID]
+	r.verifAccess("HandleTaskChange", true)
 	if !found {
 		return
 	}
@@ -468,6 +472,7 @@ func (r *PipelineRunner) HandleStageChange(stage *scheduler.Stage) {
 	jobIDString := stage.Variables.Get(taskctl.JobIDVariableName).(string)
 	jobID, _ := uuid.FromString(jobIDString)
 	j, ok := r.jobsByID[jobID]
+	r.verifAccess("HandleStageChange", true)
 	if !ok {
 		return
 	}
@@ -496,6 +501,7 @@ func (r *PipelineRunner) JobCompleted(id uuid.UUID, err error) {
 	}
 
 	job.deinitScheduler()
+	r.verifAccess("JobCompleted", true)
 
 	job.Completed = true
 	now := time.Now()
@@ -544,6 +550,7 @@ func (r *PipelineRunner) startJobsOnWaitList(pipeline string) {
 		r.waitListByPipeline[pipeline] = waitList
 
 		r.startJob(queuedJob)
+		r.verifAccess("startJobsOnWaitList", true)
 		waitList = r.waitListByPipeline[pipeline]
 
 		log.
@@ -564,6 +571,7 @@ func (r *PipelineRunner) IterateJobs(process func(j *PipelineJob)) {
 	for _, pJob := range r.jobsByID {
 		process(pJob)
 	}
+	r.verifAccess("IterateJobs", false)
 }
 
 type PipelineInfo struct {
@@ -592,6 +600,7 @@ func (r *PipelineRunner) ListPipelines() []PipelineInfo {
 	sort.Slice(res, func(i, j int) bool {
 		return res[i].Pipeline < res[j].Pipeline
 	})
+	r.verifAccess("ListPipelines", false)
 
 	return res
 }
@@ -748,6 +757,7 @@ func (r *PipelineRunner) SaveToStore() {
 			if shouldRemoveJob {
 				delete(r.jobsByID, job.ID)
 				r.jobsByPipeline[job.Pipeline] = removeJobFromList(r.jobsByPipeline[job.Pipeline], job)
+				r.verifAccess("SaveToStore.remove", true)
 				// A removed job must not stay on the wait list (it could be started later although it is gone)
 				r.waitListByPipeline[job.Pipeline] = removeJobFromWaitList(r.waitListByPipeline[job.Pipeline], job)
 
@@ -805,6 +815,7 @@ func (r *PipelineRunner) SaveToStore() {
 			LastError: helper.ErrToStrPtr(job.LastError),
 		})
 	}
+	r.verifAccess("SaveToStore.snapshot", false)
 	r.mx.Unlock()
 
 	// We do not need to lock here, the single save loops guarantees non-concurrent saves
@@ -832,6 +843,7 @@ func (r *PipelineRunner) Shutdown(ctx context.Context) error {
 
 	r.mx.Lock()
 	r.isShuttingDown = true
+	r.verifAccess("Shutdown.begin", true)
 	// Cancel all jobs on wait list
 	for pipelineName, jobs := range r.waitListByPipeline {
 		for _, job := range jobs {
@@ -881,6 +893,7 @@ func (r *PipelineRunner) Shutdown(ctx context.Context) error {
 			for jobID := range r.jobsByID {
 				_ = r.cancelJobInternal(jobID)
 			}
+			r.verifAccess("Shutdown.force", true)
 			r.mx.Unlock()
 
 			return ctx.Err()
@@ -965,6 +978,7 @@ func (r *PipelineRunner) CancelJob(id uuid.UUID) error {
 }
 
 func (r *PipelineRunner) cancelJobInternal(id uuid.UUID) error {
+	r.verifAccess("cancelJobInternal", true)
 	job, ok := r.jobsByID[id]
 	if !ok {
 		return ErrJobNotFound
@@ -1049,6 +1063,7 @@ func (r *PipelineRunner) StartDelayedJob(id uuid.UUID) {
 	// Unset start timer since it is done to allow immediate processing of job
 	// (e.g. if it gets eligible to execute after some other job finished)
 	job.startTimer = nil
+	r.verifAccess("StartDelayedJob", true)
 
 	// Start pending jobs on wait list (should run delayed job)
 	r.startJobsOnWaitList(job.Pipeline)
@@ -1063,6 +1078,7 @@ func (r *PipelineRunner) ReplaceDefinitions(defs *definition.PipelinesDef) {
 	defer r.mx.Unlock()
 
 	r.defs = defs
+	r.verifAccess("ReplaceDefinitions", true)
 }
 
 func buildJobFromPersistedJob(pJob store.PersistedJob) *PipelineJob {
